@@ -23,6 +23,7 @@ func init() {
 		ID: "C11",
 		Rule: "Each case: a seeded reflect.StructOf config type (nested, pointer and embedded structs, depth <=3; string-castable leaves of 30 kinds incl. named scalar/slice/map types, plus text-unmarshalable leaves that are never set; `dials` tags in snake/kebab/lowerCamel/UpperCamel on any level, `dialsenv` tags on some leaves, initialisms and single-letter words in names), a unique Prefix (all earlier cases' variables stay in the environment as noise, plus near-miss names: no prefix, extra suffix, lower case, doubled underscore) or no prefix (serial, cleaned up), a seeded subset of variables set to the canonical text of typed values. " +
 			"The expected variable name is computed from the generator's WORD LISTS (never by calling caseconversion); env.Source.Value's result, stacked over zero defaults by the real compose, must equal the reference stack of exactly the set leaves; unparsable and just-out-of-range literals must make Value return an error. " +
+			"In about a third of the compared cases the SAME Source object is then asked again, once or twice, after the environment changed (variables removed - at least one -, changed, added; sometimes emptied), and after a rejected literal was corrected or removed: every call must equal the reference stack of the variables present at THAT call. " +
 			"distinct_nontrivial = distinct (type-shape, set-pattern, prefix?) signatures with >=1 variable set and >=1 left unset.",
 		Assumptions: []string{
 			"ALL-CAPS dials tags are not generated (how an all-caps run splits into words is not fixed by the statement)",
@@ -31,8 +32,9 @@ func init() {
 		},
 		MinDistinct: map[string]int{"quick": 10000, "thorough": 300000},
 		MinCounters: map[string]map[string]int64{
-			"quick":    {"variables_set_and_compared": 20000, "leaves_expected_unset": 20000, "bad_literal_probes_rejected": 400, "noise_variables_present": 40000},
-			"thorough": {"variables_set_and_compared": 800000},
+			"quick":    {"variables_set_and_compared": 20000, "leaves_expected_unset": 20000, "bad_literal_probes_rejected": 400, "noise_variables_present": 40000,
+				"same_source_asked_again_after_the_environment_changed": 5000, "variables_removed_before_a_later_call": 5000},
+			"thorough": {"variables_set_and_compared": 800000, "same_source_asked_again_after_the_environment_changed": 100000, "variables_removed_before_a_later_call": 100000},
 		},
 		Plan: func(tier string) fw.Plan {
 			if tier == "thorough" {
@@ -357,6 +359,25 @@ func runC11(w *fw.Worker) {
 			}
 			w.Count("bad_literal_probes_rejected", 1)
 			w.SetAdd("bad_literal_classes", probeClass)
+			if !unquotedMap && r.Chance(50) {
+				// the operator corrects (or removes) the offending variable and the SAME source object is asked again
+				n := envName(prefix, probeLeaf)
+				if r.Bool() {
+					v := gen.GenLeafValue(r, c, probeLeaf.Leaf().Leaf)
+					layer.Vals[probeLeaf] = v
+					texts[n] = probeLeaf.Leaf().Leaf.Text(v)
+					set(n, texts[n])
+				} else {
+					delete(texts, n)
+					os.Unsetenv(n)
+				}
+				got2, err2 := src.Value(context.Background(), dials.NewType(ptrType))
+				if c11Judge(w, i, spec, leaves, layer, got2, err2, "-on-a-later-call-of-the-same-source", func() any {
+					return map[string]any{"first_call": "rejected a bad literal (" + probeClass + ")", "second_call": witness()}
+				}) {
+					w.Count("same_source_asked_again_after_a_rejected_literal_was_corrected", 1)
+				}
+			}
 			return
 		}
 		if err != nil && unquotedMap {
@@ -393,7 +414,97 @@ func runC11(w *fw.Worker) {
 		if i%173 == 0 {
 			w.Sample(witness())
 		}
+		if unquotedMap || !r.Chance(c11RereadPct) {
+			return
+		}
+		// The SAME source object is asked again (a re-read of the environment, e.g. Blank.SetSource with the source that is
+		// already installed) after the environment changed: some variables removed, some changed, some added. Every call
+		// must reflect the environment as it is at that call.
+		first := witness()
+		tyArg := dials.NewType(ptrType)
+		for round, rounds := 1, r.Range(1, 2); round <= rounds; round++ {
+			removed, changed, added := 0, 0, 0
+			drop := func(lr *gen.LeafRef) {
+				n := envName(prefix, lr)
+				delete(layer.Vals, lr)
+				delete(texts, n)
+				os.Unsetenv(n)
+				removed++
+			}
+			emptyAll := r.Chance(10)
+			for _, lr := range leaves {
+				lf := lr.Leaf().Leaf
+				if lf.Caps&gen.CapEnv == 0 || lf.Text == nil {
+					continue
+				}
+				n := envName(prefix, lr)
+				if _, isSet := layer.Vals[lr]; isSet {
+					switch k := r.Intn(10); {
+					case k < 4 || emptyAll:
+						drop(lr)
+					case k < 6:
+						v := gen.GenLeafValue(r, c, lf)
+						layer.Vals[lr] = v
+						texts[n] = lf.Text(v)
+						set(n, texts[n])
+						changed++
+					}
+				} else if !emptyAll && r.Chance(20) {
+					v := gen.GenLeafValue(r, c, lf)
+					layer.Vals[lr] = v
+					texts[n] = lf.Text(v)
+					set(n, texts[n])
+					added++
+				}
+			}
+			if removed == 0 && len(layer.Vals) > 0 {
+				// at least one variable that was present is gone
+				for _, lr := range leaves {
+					if _, isSet := layer.Vals[lr]; isSet {
+						drop(lr)
+						break
+					}
+				}
+			}
+			if r.Bool() {
+				tyArg = dials.NewType(ptrType)
+			}
+			gotN, errN := src.Value(context.Background(), tyArg)
+			if !c11Judge(w, i, spec, leaves, layer, gotN, errN, "-on-a-later-call-of-the-same-source", func() any {
+				return map[string]any{"call": round + 1, "first_call": first, "this_call": witness(), "variables_removed": removed, "variables_changed": changed, "variables_added": added}
+			}) {
+				return
+			}
+			w.Count("same_source_asked_again_after_the_environment_changed", 1)
+			w.Count("variables_removed_before_a_later_call", int64(removed))
+			w.Count("variables_changed_before_a_later_call", int64(changed))
+			w.Count("variables_added_before_a_later_call", int64(added))
+			w.Count("leaves_expected_unset_on_a_later_call", int64(len(leaves)-len(layer.Vals)))
+		}
 	})
+}
+
+// c11RereadPct: share of the compared cases whose source object is asked again after the environment changed.
+const c11RereadPct = 30
+
+// c11Judge compares one Value result of an environment source, stacked over zero defaults, with the reference stack of
+// exactly the leaves whose variables are present now; suffix names the episode in the violation key.
+func c11Judge(w *fw.Worker, i int, spec *gen.Spec, leaves []*gen.LeafRef, layer *gen.Layer, got reflect.Value, err error, suffix string, witness func() any) bool {
+	if err != nil {
+		w.Violation(i, "value-error-on-well-formed-environment"+suffix, err.Error(), witness())
+		return false
+	}
+	res, cerr := dials.VerifCompose(reflect.New(spec.Type()).Interface(), []reflect.Value{got})
+	if cerr != nil {
+		w.Violation(i, "compose-error-on-env-value"+suffix, cerr.Error(), witness())
+		return false
+	}
+	want := gen.ReferenceStack(reflect.New(spec.Type()).Elem(), []*gen.Layer{layer})
+	if d := gen.Diff(want, reflect.ValueOf(res).Elem()); d != "" {
+		w.Violation(i, "env-result-differs"+suffix+":"+c11Classify(spec, leaves, layer, d), "reference vs env source at "+d, witness())
+		return false
+	}
+	return true
 }
 
 // c11Classify: was the differing leaf expected set (its variable was present) or unset, and what shape is its name.
